@@ -89,6 +89,28 @@ impl St {
     pub fn corners_center(&self) -> (Vec<(f64, f64)>, (f64, f64)) {
         each!(self, s => (s.cell.get_corners().iter().map(|p| (p.x, p.y)).collect(), { let c = s.cell.center(); (c.x, c.y) }))
     }
+    /// serialise, read back, and report (text, score of the copy, placements of the copy, re-serialisation)
+    pub fn roundtrip(&self) -> Result<(String, Option<f64>, Vec<M9>, String), String> {
+        macro_rules! rt {
+            ($s:expr, $t:ty) => {{
+                let text = serde_json::to_string($s).map_err(|e| format!("to_string: {}", e))?;
+                let back: $t = serde_json::from_str(&text).map_err(|e| format!("from_str: {}", e))?;
+                let sc = back.score();
+                let pos: Vec<M9> = back.cartesian_positions().map(|t| mat(&t)).collect();
+                let again = serde_json::to_string(&back).map_err(|e| format!("to_string: {}", e))?;
+                Ok((text, sc, pos, again))
+            }};
+        }
+        match self {
+            St::Poly(s) => rt!(s, PackedState<LineShape>),
+            St::Mol(s) => rt!(s, PackedState<MolecularShape2>),
+            St::Lj(s) => rt!(s, PotentialState<LJShape2>),
+        }
+    }
+    pub fn svg(&self) -> String {
+        use packing::traits::ToSVG;
+        each!(self, s => format!("{}", s.as_svg()))
+    }
     pub fn json(&self) -> Value {
         each!(self, s => serde_json::to_value(s).unwrap())
     }
@@ -855,6 +877,88 @@ pub fn run_state_case(spec: &Spec, out: &mut dyn Write) -> GeomOut {
                         _ => "",
                     };
                     add(&mut f, "C02", format!("packing fraction {:?} outside (0, 1]{}", sc, class));
+                }
+            }
+        }
+    }
+    // ---------------- C11: JSON round trip and SVG
+    if finite_cell && finite_site {
+        match st.roundtrip() {
+            Err(e) => add(&mut f, "C11", format!("the state cannot be written and read back: {}", e)),
+            Ok((text, sc2, pos2, again)) => {
+                let same_score = match (score, sc2) {
+                    (Some(a), Some(b)) => a.to_bits() == b.to_bits() || (a.is_nan() && b.is_nan()),
+                    (None, None) => true,
+                    _ => false,
+                };
+                if !same_score {
+                    add(&mut f, "C11", format!("score {:?} before writing, {:?} after reading the JSON back", score, sc2));
+                }
+                if pos2.len() != cart.len() || pos2.iter().zip(cart.iter()).any(|(a, b)| a.iter().zip(b.iter()).any(|(x, y)| x.to_bits() != y.to_bits() && !(x.is_nan() && y.is_nan()))) {
+                    add(&mut f, "C11", "the placements change when the state is written to JSON and read back".into());
+                }
+                if again != text {
+                    add(&mut f, "C11", "re-serialising the state read back from JSON gives a different text".into());
+                }
+            }
+        }
+        // the SVG: 9 cell frames, then per placement the placement itself and its 8 nearest images
+        let svg = st.svg();
+        let mut uses: Vec<(String, Vec<f64>)> = vec![];
+        for tag in svg.split("<use ").skip(1) {
+            let tag = &tag[..tag.find('>').unwrap_or(tag.len())];
+            let href = tag.split("href=\"").nth(1).map(|t| t[..t.find('"').unwrap_or(0)].to_string()).unwrap_or_default();
+            let nums: Vec<f64> = tag
+                .split("matrix(").nth(1)
+                .map(|t| t[..t.find(')').unwrap_or(0)].split_whitespace().map(|x| x.parse::<f64>().unwrap_or(f64::NAN)).collect())
+                .unwrap_or_default();
+            uses.push((href, nums));
+        }
+        let mut expect: Vec<(String, M9)> = vec![];
+        {
+            let (ax, bx, by) = (a, b * cs, b * sn);
+            for nn in -1i64..=1 {
+                for mm in -1i64..=1 {
+                    expect.push(("#cell".into(), [1., 0., nn as f64 * ax + mm as f64 * bx, 0., 1., mm as f64 * by, 0., 0., 1.]));
+                }
+            }
+            for p in cart.iter() {
+                expect.push(("#mol".into(), *p));
+                for nn in -1i64..=1 {
+                    for mm in -1i64..=1 {
+                        if nn == 0 && mm == 0 {
+                            continue;
+                        }
+                        let mut q = *p;
+                        q[2] += nn as f64 * ax + mm as f64 * bx;
+                        q[5] += mm as f64 * by;
+                        expect.push(("#mol".into(), q));
+                    }
+                }
+            }
+        }
+        if uses.len() != expect.len() {
+            add(&mut f, "C11", format!("the SVG has {} <use> elements, expected {} (9 cell frames + 9 per placement)", uses.len(), expect.len()));
+        } else {
+            for (k, ((href, nums), (ehref, m))) in uses.iter().zip(expect.iter()).enumerate() {
+                if href != ehref || nums.len() != 6 {
+                    add(&mut f, "C11", format!("SVG element {} is {:?} with {} numbers, expected {}", k, href, nums.len(), ehref));
+                    break;
+                }
+                // what the SVG matrix(a b c d e f) does to probe points: (a x + c y + e, b x + d y + f)
+                let tol = 1e-9 * scale.max(1.);
+                let mut bad = false;
+                for p in [(0., 0.), (1., 0.), (0., 1.)].iter() {
+                    let got = (nums[0] * p.0 + nums[2] * p.1 + nums[4], nums[1] * p.0 + nums[3] * p.1 + nums[5]);
+                    let want = apply(m, *p);
+                    if (got.0 - want.0).abs() > tol || (got.1 - want.1).abs() > tol {
+                        bad = true;
+                    }
+                }
+                if bad {
+                    add(&mut f, "C11", format!(
+                        "SVG element {} ({}) draws the shape with matrix({:?}), the structure places it with {:?}", k, href, nums, &m[..6]));
+                    break;
                 }
             }
         }
